@@ -379,3 +379,117 @@ func TestVerif_C09_ControlledRandom(t *testing.T) {
 			ReadBack: rapid.Bool().Draw(rt, "readback")}
 	}, 400)
 }
+
+// ---- first use: the device's own chain key is created lazily by whichever call needs it first (recording the group,
+// announcing the key to a member). One task records the group, shares the key and sends; another announces the key to
+// some member at the same time. The chain that the receiver was given is the one the envelopes are sealed with, and
+// the stored counter never goes back.
+
+type c09FirstUseScenario struct {
+	Messages int  `json:"messages"`
+	Lates    int  `json:"lates"` // tasks announcing the key meanwhile
+	PutFirst bool `json:"put_first"`
+}
+
+func c09FirstUse(t *testing.T, sc c09FirstUseScenario, choices []int) vsched.Outcome {
+	var out vsched.Outcome
+	w := &c09World{ds: newRecDS()}
+	var sent []c09Sent
+	var errs []string
+	var dec *[]string
+	out.Res = vsched.Run(t, vsched.Options{Choices: choices, MaxSteps: 4000}, func(s *vsched.Sched) {
+		w.S = vNewDevOn("S", w.ds, 100, 8)
+		w.R = vNewDev("R", 100, 8)
+		g, _, _ := protocoltypes.NewGroupMultiMember()
+		w.groups = []*protocoltypes.Group{g}
+		w.c0 = []uint64{0}
+		_ = w.R.s.PutGroup(vctx, g)
+		other := vNewDev("O", 100, 8)
+		_ = other.s.PutGroup(vctx, g)
+		_ = w.S.md(g)
+		rMember, oMember := w.R.md(g).Member(), other.md(g).Member()
+		dec = c09WatchCounters(w.ds)
+		w.ds.Hook = func(op, key string) {
+			if strings.Contains(key, namespaceDeviceKeystore) {
+				return
+			}
+			vsched.Yield("ds:" + op)
+		}
+		s.Go("creator", func() {
+			if sc.PutFirst {
+				if err := w.S.s.PutGroup(vctx, g); err != nil {
+					errs = append(errs, "PutGroup: "+err.Error())
+					return
+				}
+			}
+			enc, err := w.S.s.GetShareableChainKey(vctx, g, rMember)
+			if err != nil {
+				errs = append(errs, "GetShareableChainKey: "+err.Error())
+				return
+			}
+			if err := w.R.s.RegisterChainKey(vctx, g, w.S.md(g).Device(), enc); err != nil {
+				errs = append(errs, "RegisterChainKey: "+err.Error())
+				return
+			}
+			for mi := 0; mi < sc.Messages; mi++ {
+				p := []byte(fmt.Sprintf("m%d", mi))
+				env, err := w.S.s.SealEnvelope(vctx, g, vWrap(p))
+				if err != nil {
+					errs = append(errs, "SealEnvelope: "+err.Error())
+					return
+				}
+				sent = append(sent, c09Sent{0, env, p})
+			}
+		})
+		for i := 0; i < sc.Lates; i++ {
+			s.Go(fmt.Sprintf("late%d", i), func() {
+				if _, err := w.S.s.GetShareableChainKey(vctx, g, oMember); err != nil {
+					errs = append(errs, "GetShareableChainKey(late): "+err.Error())
+				}
+			})
+		}
+		s.Cleanup = func() { w.ds.Hook = nil }
+	})
+	out.Standard()
+	w.ds.Hook = nil
+	if len(errs) > 0 {
+		out.Fail("first-use-error", "a call failed under an overlapping schedule: %v", errs)
+	}
+	for _, st := range out.Res.Terminal {
+		if st.State != "done" && out.Violation == "" {
+			out.Fail("task-stuck", "task did not finish: %+v", st)
+		}
+	}
+	if out.Violation == "" {
+		if id, msg := c09Judge(w, sent, *dec); id != "" {
+			out.Fail(id, "%s", msg)
+		}
+	}
+	for _, st := range out.Res.Trace {
+		if strings.HasSuffix(st.Point, "/wait") {
+			out.NonTrivial = true
+		}
+	}
+	out.Labels = append(out.Labels, "controlled/first-use")
+	return out
+}
+
+func TestVerif_C09_ControlledFirstUse(t *testing.T) {
+	e := &vsched.Explorer[c09FirstUseScenario]{PID: "C09", Prefix: "controlled-first-use", Test: "TestVerif_C09_ControlledFirstUse", Run: c09FirstUse}
+	if p := vacct.ReplayPath(); p != "" {
+		e.Replay(t, p)
+		return
+	}
+	scs := []c09FirstUseScenario{{Messages: 2, Lates: 1}, {Messages: 1, Lates: 1, PutFirst: true}}
+	maxRuns, maxPre := 3000, 1
+	if vacct.Thorough() {
+		scs = append(scs, c09FirstUseScenario{Messages: 2, Lates: 2}, c09FirstUseScenario{Messages: 3, Lates: 1, PutFirst: true})
+		maxRuns, maxPre = 40000, 2
+	}
+	shard, nshards := vacct.Shard()
+	for i, sc := range scs {
+		if i%nshards == shard {
+			e.DFS(t, sc, maxPre, maxRuns)
+		}
+	}
+}
